@@ -16,6 +16,10 @@ func Parse(s string) (Application, error) {
 		if len(line) == 0 || line[0] == '#' {
 			continue
 		}
+		if comment := strings.Index(line, "#"); comment != -1 {
+			// A comment may directly follow a label or a mnemonic
+			line = strings.TrimSpace(line[:comment])
+		}
 
 		firstWhitespace := strings.Index(line, " ")
 		lastCharacters := line[len(line)-1]
